@@ -762,12 +762,41 @@ pub fn fam_lr1ish_deep(rng: &mut Rng) -> Cfg {
     let pool = rng.range(2, 4);
     let ss: Vec<usize> = (0..pool).map(|i| c.term(&format!("Suf{}", i))).collect();
     let contexts = rng.range(2, 4);
+    // "late lookahead" variant (one grammar in three): context 0 is a recursive wrapper whose
+    // closing token `z` reaches the slot's inheriting alternative only on the second visit of
+    // the wrapper's state, and context 1 uses the same `z` explicitly after the *other*
+    // nonterminal, so that two core-equal states are compatible when first met and
+    // incompatible once all lookaheads have arrived
+    let late: Option<(usize, usize)> = if rng.chance(1, 3) { Some((rng.below(nx), rng.below(pool))) } else { None };
     for i in 0..contexts {
         // the slot of this context
         let slot = c.nt(&format!("Slot{}", i));
         let mut order: Vec<usize> = (0..pool).collect();
         rng.shuffle(&mut order);
         for (j, n) in xs.iter().enumerate() {
+            match late {
+                Some((inh, z)) if i == 0 => {
+                    if j == inh {
+                        c.rule(slot, vec![N(*n)]);
+                    } else {
+                        let s = (z + 1 + rng.below(pool - 1)) % pool;
+                        c.rule(slot, vec![N(*n), T(ss[s])]);
+                    }
+                    continue;
+                }
+                Some((inh, z)) if i == 1 => {
+                    if j == (inh + 1) % nx {
+                        c.rule(slot, vec![N(*n), T(ss[z])]);
+                    } else if j == inh && rng.chance(2, 3) {
+                        c.rule(slot, vec![N(*n)]);
+                    } else {
+                        let s = (z + 1 + rng.below(pool - 1)) % pool;
+                        c.rule(slot, vec![N(*n), T(ss[s])]);
+                    }
+                    continue;
+                }
+                _ => {}
+            }
             if rng.chance(1, 3) {
                 c.rule(slot, vec![N(*n)]); // inherits whatever may follow the slot
             } else if j < pool {
@@ -781,7 +810,12 @@ pub fn fam_lr1ish_deep(rng: &mut Rng) -> Cfg {
             let p = if rng.chance(1, 3) && i > 0 { c.terms.iter().position(|t| t == "Pre0_0").unwrap_or(0) } else { c.term(&format!("Pre{}_{}", i, d)) };
             prefix.push(T(p));
         }
-        match rng.below(3) {
+        let style = match late {
+            Some(_) if i == 0 => 1,
+            Some(_) if i == 1 => [0, 0, 1][rng.below(3)],
+            _ => rng.below(3),
+        };
+        match style {
             0 => {
                 // flat: Top -> prefix Slot [suffix]
                 let mut rhs = prefix.clone();
@@ -795,7 +829,10 @@ pub fn fam_lr1ish_deep(rng: &mut Rng) -> Cfg {
                 // recursive wrapper: W -> o W z | k Slot ; Top -> W
                 let w = c.nt(&format!("Wrap{}", i));
                 let o = c.term(&format!("Open{}", i));
-                let z = ss[rng.below(pool)];
+                let z = match late {
+                    Some((_, z)) if i == 0 => ss[z],
+                    _ => ss[rng.below(pool)],
+                };
                 c.rule(w, vec![T(o), N(w), T(z)]);
                 let mut rhs = prefix.clone();
                 rhs.push(N(slot));
@@ -1268,7 +1305,11 @@ pub fn accepted_family(rng: &mut Rng) -> Cfg {
         dedup_rules(&mut c);
         return c;
     }
-    let w = rng.weighted(&[3, 4, 3, 4, 2, 2, 2, 2, 5, 3, 3, 3, 2, 3, 6, 8, 3, 1]);
+    let mut w = rng.weighted(&[3, 4, 3, 4, 2, 2, 2, 2, 5, 3, 3, 3, 3, 5, 6, 8, 3, 1]);
+    if let Ok(v) = std::env::var("VERIF_ONLY_FAMILY_INDEX") {
+        // experiment switch (not used by the registered checks)
+        w = v.parse().unwrap_or(w);
+    }
     let mut c = match w {
         0..=15 => base_family(rng, w),
         16 => fam_compose(rng),
